@@ -113,7 +113,9 @@ LayersE(S, E, frontier, seen, d) ==
        [m \in S |-> IF m \in frontier THEN d ELSE rest[m]]
 DistE(S, E, src) == LayersE(S, E, {src}, {src}, 0)
 ConnectedE(S, E) == \A m \in S : \A n \in S : DistE(S, E, m)[n] <= NM
-BidirectionalE(E) == \A e \in E : \E f \in E : f.from = e.to /\ f.to = e.from
+(* the documented definition: for each edge from gate a to gate b there is an edge from gate b to gate a (an edge *)
+(* somewhere back to the source *node* is not enough when two modules are linked by several chains)              *)
+BidirectionalE(E) == \A e \in E : \E f \in E : f.g1 = e.g2 /\ f.g2 = e.g1
 (* acceptable answers of dijkstra(src) for target v: first edges of minimum-hop paths *)
 FirstEdgesE(S, E, src, v) == LET d == DistE(S, E, src) IN {e \in E : e.from = src /\ DistE(S, E, e.to)[v] = d[v] - 1}
 
